@@ -35,6 +35,15 @@ func NewOptimizer(level OptimizationLevel) *Optimizer {
 	}
 }
 
+// resetFacts forgets everything learned about variables. Facts describe one
+// body of statements; the variables of the next body are different variables
+// even when they have the same names.
+func (o *Optimizer) resetFacts() {
+	o.constants = make(map[string]ast.Literal)
+	o.expressions = make(map[string]string)
+	o.copies = make(map[string]string)
+}
+
 // OptimizeExpression optimizes an expression
 func (o *Optimizer) OptimizeExpression(expr ast.Expr) ast.Expr {
 	if o.level == OptNone {
